@@ -38,7 +38,9 @@ SPEC = {
 
 HOSTILE = ['</script>', '</SCRIPT >', '<!-- x', '<script>alert(1)</script>', 'say "hi"', "it's", 'back\\slash', 'line sep', '/* JS_PLACEHOLDER */',
            '/* DATA_PLACEHOLDER */', '/* CSS_PLACEHOLDER */', '{amount}', '{0}', 'Café Ünï 東京', '&amp; <b>', '%s %d', '${x}', '`tick`', 'tab\there',
-           ']]>', '\\u003c', "'); drop", '<style>/* CSS_PLACEHOLDER */</style>']
+           ']]>', '\\u003c', "'); drop", '<style>/* CSS_PLACEHOLDER */</style>',
+           # an emoji cut in half by a truncating export (a lone surrogate), an astral character, a NUL-free control character
+           'COFFEE \ud83d', 'party \U0001f389 time', 'bell\x07']
 MERCH = ['Netflix', "Joe's Diner", 'Joes Diner', 'Joe"s Diner', 'A B', 'A_B', 'A  B', "A'B", 'AB', 'Costco', 'Payroll Inc', 'Venmo', 'Fidelity', 'Uber Eats',
          'Shell </script>', 'Bank /* JS_PLACEHOLDER */', 'Über', 'X', "O'Neil_s", 'O Neils', 'Joes Diner 2', 'Joes_Diner_2', 'A B 2', 'A_B_2', 'A_B_3']
 CATS = [('Food', 'Grocery'), ('Food', 'Restaurant'), ('Bills', 'Rent'), ('Income', 'Salary'), ('Finance', 'Transfer'), ('Unknown', 'Unknown'),
@@ -79,8 +81,9 @@ def gen_txns(rnd):
             t['extra_fields'] = {'items': [rnd.choice(HOSTILE), 'b'], 'n': i, 'who': rnd.choice(HOSTILE)}
             hostile += 1
         if rnd.random() < .3:
+            # (the readers hand over ONE list: the transaction's tags and its match_info's tags are the same object)
             t['match_info'] = {'pattern': rnd.choice(PATTERNS + [rnd.choice(HOSTILE)]), 'source': 'user',
-                               'tags': list(tags), 'tag_sources': {tg: {'rule': 'R', 'pattern': 'p'} for tg in tags}}
+                               'tags': tags if rnd.random() < .5 else list(tags), 'tag_sources': {tg: {'rule': 'R', 'pattern': 'p'} for tg in tags}}
         out.append(t)
     if rnd.random() < .06:
         # income and spending cancel to the cent: a cash flow of exactly 0 is a figure like any other (every format reports 0, not a fallback)
